@@ -108,14 +108,27 @@ Proof.
 Qed.
 Print Assumptions C19_same_program_everywhere.
 
-(** non-Linux targets: the stubs file is the one compiled, it has no call expression and imports nothing, and
-    Supported reports false *)
-Theorem C19_stubs_inert :
-  stubs_build_constraint = "!linux"%string /\ stubs_imports = 0%nat /\
-  forallb (fun s => let '(_, calls, _, _) := s in Nat.eqb calls 0) stubs = true /\
-  In ("Supported"%string, 0%nat, 1%nat, "false"%string) stubs /\
-  map (fun s => fst (fst (fst s))) stubs = ["Supported"; "SetNoNewPrivs"; "LoadFilter"]%string.
-Proof. repeat split; try reflexivity. vm_compute. left. reflexivity. Qed.
+(** non-Linux targets: in the package AS BUILT FOR THAT TARGET (whatever files the build constraints select) each of the
+    three loader functions exists, its body contains no call expression (no go / defer either) - so it performs no
+    system call - and Supported is [return false]. [tc_bodies] is regenerated per target from the type-checked files. *)
+Definition body_of (t:target_consts) (f:string) : option (nat * string) :=
+  match filter (fun b => String.eqb (fst (fst b)) f) (tc_bodies t) with
+  | [(_, calls, ret)] => Some (calls, ret)
+  | _ => None
+  end.
+Definition loader_functions : list string := ["Supported"; "SetNoNewPrivs"; "LoadFilter"]%string.
+Theorem C19_stubs_inert : forall t, In t targets -> is_linux t = false ->
+  (forall f, In f loader_functions -> exists ret, body_of t f = Some (0%nat, ret)) /\
+  body_of t "Supported"%string = Some (0%nat, "false"%string).
+Proof.
+  assert (H: forallb (fun t => is_linux t ||
+     (forallb (fun f => match body_of t f with Some (0%nat, _) => true | _ => false end) loader_functions &&
+      match body_of t "Supported"%string with Some (0%nat, r) => String.eqb r "false" | _ => false end)) targets = true) by (vm_compute; reflexivity).
+  rewrite forallb_forall in H. intros t Hin Hl. specialize (H t Hin). rewrite Hl in H. cbn [orb] in H.
+  apply andb_true_iff in H. destruct H as [H1 H2]. rewrite forallb_forall in H1. split.
+  - intros f Hf. specialize (H1 f Hf). destruct (body_of t f) as [[[|n] r]|]; try discriminate. exists r. reflexivity.
+  - destruct (body_of t "Supported"%string) as [[[|n] r]|]; try discriminate. apply String.eqb_eq in H2. subst. reflexivity.
+Qed.
 Print Assumptions C19_stubs_inert.
 
 Definition has_file (t:target_consts) (f:string) : bool := existsb (String.eqb f) (tc_files t).
